@@ -130,7 +130,15 @@ NodeSet == { [fn |-> "node", it |-> it,
               cfg |-> [maxPool |-> 5, minPool |-> 0, stack |-> s, trunk |-> tr, erdma |-> rd, excl |-> x]]
              : it \in FeatInst, s \in Stacks, tr \in BOOLEAN, rd \in BOOLEAN, x \in BOOLEAN }
 
-DomSet == FeatDaemon \cup SizeDaemon \cup CrdDaemon \cup AnnoDaemon \cup NodeSet
+(* Daemon (re)start on a node that already has k secondary interfaces attached: the real setupENIManager builds one pool *)
+(* slot per attached interface plus the slots it may still fill; out = [err, attached, empty, advertised].               *)
+RestartInst == { [q |-> q, tq |-> q, v4 |-> v, v6 |-> 0, trunkSup |-> FALSE, eri |-> 0] : q \in {2, 3, 4, 8}, v \in {1, 6} }
+RestartSet == { [fn |-> "restart", it |-> it, attached |-> k,
+                 cfg |-> [maxEni |-> 0, minEni |-> 0, maxPool |-> 5, minPool |-> 0, stack |-> "ipv4",
+                          trunk |-> FALSE, erdma |-> FALSE, ipam |-> ""]]
+               : it \in RestartInst, k \in 0..7 }
+
+DomSet == FeatDaemon \cup SizeDaemon \cup CrdDaemon \cup AnnoDaemon \cup NodeSet \cup { d \in RestartSet : d.attached <= d.it.q - 1 }
 DomSeq == SetToSeq(DomSet)
 
 ------------------------------------------------------------------------
@@ -185,9 +193,16 @@ BadNode(in, out) ==
     \cup If(s.trunk /\ ~it.trunkSup, "trunk_advertised_but_unsupported")
     \cup If(s.erdma /\ it.eri = 0, "rdma_advertised_but_unsupported")
 
+BadRestart(in, out) ==
+    IF out.err # "" THEN {"restart_failed"}
+    ELSE (IF out.attached + out.empty > Slots(in.it) THEN {"slots_exceed_attachable_interfaces"} ELSE {})
+         \cup (IF out.advertised > IPCeil(in.it) THEN {"ip_capacity_exceeds_slots_times_addresses"} ELSE {})
+         \cup (IF out.attached # in.attached THEN {"attached_interface_not_adopted"} ELSE {})
+
 Bad(c) ==
     IF c.panic # "" THEN {"panic"}
     ELSE CASE c.in.fn = "daemon" -> BadDaemon(c.in, c.out)
+           [] c.in.fn = "restart" -> BadRestart(c.in, c.out)
            [] c.in.fn = "node"   -> BadNode(c.in, c.out)
            [] OTHER -> {"unknown_case"}
 
